@@ -11,6 +11,8 @@ CLAIMED["C07"] = ("other", "Write-authority gates as structure: the DB/Store met
   "entry-point discovery over the call graph vs. confirmed tables, CFG guarded-by rules, sibling agreement, origin rendering over go/ssa")
 CLAIMED["C02"] = ("other", "Structural necessary conditions of rollback-journal capture decided on every path: dirty tracking of every accepted database write, commit-detection wiring of the three finalisation events, no LTX on the rollback branch, LTX header provenance (TXID+1, pre = previous post checksum, commit from the database header), page filter (<= commit, lock page skipped, sorted, bytes from the database file, checksum cross-check), truncated-page reset before the post-apply checksum, publish/invalidate/advance order, guards of TruncateDatabase. Does NOT decide that the LTX equals the page delta for every pager program.", "DESIGN.md section 4 C02",
   "CFG path rules, origin rendering of header/argument values, who-may-write tables over go/ssa")
+CLAIMED["C03"] = ("other", "Structural necessary conditions of WAL capture decided on every path: guards of the three WAL write classes, ownership of the capture state, frame discovery (salt and cumulative-checksum tests dominate every recorded frame, chained checksum, success only on a commit frame), capture exactly at write-lock release and before the release, no effect when no transaction is found, header provenance, page selection, publish order, state advance after durability, fatal exit on failure, index bounds of DB.checksum. Does NOT decide equality of the LTX with the reference delta or checksum arithmetic.", "DESIGN.md section 4 C03",
+  "CFG path rules, origin rendering, SSA def-use chain check of the cumulative checksum, index-bound guard over go/ssa")
 REASONS = {}
 def main():
     checks=[]
